@@ -30,6 +30,7 @@ func runC09(c *core.Ctx) {
 	c.Rule("R3", "restart with existing entry adopts tokens and state from the ring entry", 2)
 	c.Rule("R4", "token top-up: request (target − held) tokens and append them to the held list", 5)
 	c.Rule("R6", "restart from a tokens file goes ACTIVE only with a complete token set", 1)
+	c.Rule("R7", "the wait for permission to join fails only with the caller's own context error (store faults are retried or ignored)", 1)
 	c.Rule("R5", "a requested state change is remembered even when the store write fails", 1)
 	pkg := c.Prog.Pkg("ring")
 	if pkg == nil {
@@ -169,6 +170,7 @@ func runC09(c *core.Ctx) {
 	c09Restart(c)
 	c09TopUpAs(c, "R4")
 	c09ChangeState(c, "R5")
+	c09WaitJoin(c, "R7")
 }
 
 func c09Heartbeat(c *core.Ctx) { c09HeartbeatAs(c, "R2") }
@@ -440,4 +442,35 @@ func c09ChangeState(c *core.Ctx, R string) {
 		args = append(args, s.In.Canon(s.Expr.Args[0]))
 	}
 	c.Check(ok, R, "func=Lifecycler.changeState:remember", fn.Pos(), fmt.Sprintf("local state set once, to the requested state, before the store write and never rolled back (setState args: %v; updateConsul calls: %d) — a rejected write is retried by the next heartbeat from the remembered state", args, len(upd)), 1)
+}
+
+// c09WaitJoin (R7): waitBeforeJoining is on the path every (re)joining instance takes to ACTIVE and its
+// error ends the lifecycler. Its returns must therefore be nil or the error of the caller's own
+// context — a store read that fails during the wait is retried or, at the deadline, ignored.
+func c09WaitJoin(c *core.Ctx, R string) {
+	pkg := c.Prog.Pkg("ring")
+	fn := an.FindFunc(pkg, "Lifecycler.waitBeforeJoining")
+	if fn == nil {
+		c.Miss(R, "func=Lifecycler.waitBeforeJoining", "not found")
+		return
+	}
+	c.Analysed(fn.String())
+	g := fn.Graph()
+	var bad []string
+	n := 0
+	for _, b := range g.Blocks {
+		r := an.ReturnOf(b)
+		if r == nil {
+			continue
+		}
+		n++
+		if len(r.Results) != 1 {
+			bad = append(bad, "bare return")
+			continue
+		}
+		if v := fn.Canon(r.Results[0]); v != "nil" && v != "p0.Err()" && v != "context.Cause(p0)" {
+			bad = append(bad, fmt.Sprintf("%s at line %d", v, c.Prog.Fset.Position(r.Pos()).Line))
+		}
+	}
+	c.Check(n > 0 && len(bad) == 0, R, "func=Lifecycler.waitBeforeJoining:returns", fn.Pos(), fmt.Sprintf("%d returns, each nil or the caller's context error; others: %v", n, bad), n)
 }
